@@ -2,9 +2,10 @@
 rotate90) on regions, meshes and fields, in place and copying, plus rejected steps.
 Appendix A.1 of DESIGN.md."""
 import numpy as np
+from fractions import Fraction as Fr
 
 from .core import HarnessError, Violation, sut
-from .geom import MeshM, RegionM, cmp_mesh, cmp_region, frs, rot_matrix2, rot_point
+from .geom import MeshM, RegionM, cmp_mesh, cmp_region, fr, frs, rot_matrix2, rot_point
 from .heap import Box, FieldM, arrays_equal, default_mapping, default_vdims, expect_ok, expect_raise, first_diff, make_array, op
 
 
@@ -397,6 +398,35 @@ def op_rotate90(st, o):
         lambda m: m.rotate90(ia, ib, k, ref),
         lambda fm, m: rot_field_model(fm, m, ia, ib, k, ref),
     )
+
+
+@op("scale_extreme")
+def op_scale_extreme(st, o):
+    """"any non-zero factors": a power of two far outside the band the histories stay in (2**-60 ...
+    2**60), about the origin, where R + s*(x - R) involves no cancellation. The copying form must
+    accept it and return the scaled corners (1e-9 of the smallest scaled edge); the result is not kept (out of band)."""
+    h = st.h[o["on"]]
+    if h.kind not in "RM":
+        return "skipped"
+    reg = h.box.v if h.kind == "R" else h.box.v.region
+    if h.kind == "M" and h.box.v.subs:
+        return "skipped"
+    f = 2.0 ** o["e"]
+    pmin, pmax = [float(x) for x in reg.pmin], [float(x) for x in reg.pmax]
+    if any(fr(x) != Fr(float(x)) for x in list(reg.pmin) + list(reg.pmax)):
+        return "skipped"  # corners that are not floats themselves (after inexact steps): no exact expectation
+    res = sut(h.obj.scale, f, reference_point=[0.0] * reg.ndim)
+    new = expect_ok(res, f"{'Region' if h.kind == 'R' else 'Mesh'}.scale(2**{o['e']}, reference_point=origin)", "H", preds=["extreme factor"])
+    r2 = new if h.kind == "R" else new.region
+    want_min, want_max = [x * f for x in pmin], [x * f for x in pmax]
+    got_min, got_max = [float(x) for x in r2.pmin], [float(x) for x in r2.pmax]
+    st.stats.oracle("H")
+    st.stats.probe("extreme_factor")
+    tol = 1e-9 * min(b - a for a, b in zip(want_min, want_max))  # (the library adds the scaled edges to the scaled lower corner: last-digit differences)
+    if any(abs(g - w) > tol for g, w in zip(got_min + got_max, want_min + want_max)):
+        raise Violation("map.copy", f"scale(2**{o['e']}) about the origin: corners {got_min}..{got_max}, exact result {want_min}..{want_max}", preds=[h.kind, "extreme factor"], kind="H")
+    st.check_refines(o["on"], h)
+    return "scaled-extreme"
 
 
 @op("collapse")
